@@ -170,9 +170,9 @@ func lookupChecksV1() []common.Failure {
 
 func init() {
 	for _, p := range []string{"C01", "C06", "C20"} {
-		props[p] = common.UniverseProperty(p, common.UniImpl{V2: true, Load: loadV1, LookupChecks: lookupChecksV1})
+		props[p] = common.UniverseProperty(p, common.UniImpl{V2: true, Load: loadV1, LookupChecks: lookupChecksV1, LoadHistory: loadHistoryV2, LoadHistoryLookups: loadHistoryV2L})
 	}
-	props["C11"] = common.LoadingProperty(common.UniImpl{V2: true, Load: loadV1, LoadHistory: loadHistoryV2})
+	props["C11"] = common.LoadingProperty(common.UniImpl{V2: true, Load: loadV1, LoadHistory: loadHistoryV2, LoadHistoryLookups: loadHistoryV2L})
 }
 
 // ---- C11: loading histories through the real v2 Parser (scratch module; LoadPackagesTo needs cwd) ----
@@ -180,6 +180,11 @@ func init() {
 var chdirMu sync.Mutex
 
 func loadHistoryV2(prog *common.Program, initial []string, steps [][]string) (*common.USnap, bool, []string, error) {
+	return loadHistoryV2L(prog, initial, steps, nil)
+}
+
+// … with hand lookups: before incremental step i every name in lookups[i] is looked up with Universe.Type
+func loadHistoryV2L(prog *common.Program, initial []string, steps [][]string, lookups [][][2]string) (*common.USnap, bool, []string, error) {
 	chdirMu.Lock()
 	defer chdirMu.Unlock()
 	root, err := os.MkdirTemp("", "verif-mod-")
@@ -208,7 +213,12 @@ func loadHistoryV2(prog *common.Program, initial []string, steps [][]string) (*c
 		return nil, false, nil, err
 	}
 	stable := true
-	for _, step := range steps {
+	for si, step := range steps {
+		if si < len(lookups) {
+			for _, n := range lookups[si] {
+				u.Type(types.Name{Package: n[0], Name: n[1]})
+			}
+		}
 		before := map[types.Name]*types.Type{}
 		kinds := map[*types.Type]types.Kind{}
 		for _, pk := range u {
